@@ -204,6 +204,24 @@ class Runner:
             payload = b""
             if s.cfg.version == "v3" and how in ("ok", "report"):
                 boots, time = _clock(s.reply_no, act[3] if len(act) > 3 else 0)
+            if how in ("ok-wronguser", "ok-wrongmsgid", "ok-wrongrid"):
+                if s.cfg.version != "v3":
+                    return
+                kw = {}
+                rid = None
+                if how == "ok-wronguser":
+                    kw["user"] = s.cfg.user + "2"
+                elif how == "ok-wrongmsgid":
+                    kw["msg_id"] = (req.msg_id + 1) & 0x7FFFFFFF
+                else:
+                    rid = (req.request_id + 1) & 0x7FFFFFFF
+                rep = drivers.reply_for(s.cfg, req, [((1, 3, 6, 1, 2, 1, 1, 3, 0), rb.enc_int(5))], boots=99, time=9999, request_id=rid, auth=(how != "ok-wronguser"), **kw)
+                w.inject(rep)
+                out = w.recv(op, s.last_iter)
+                self.api_calls += 1
+                if not (out.kind == "exc" and isinstance(out.exc, BlockingIOError)):
+                    self.bad("usm", "non-matching message (%s) was not skipped: %r" % (how, out.brief()))
+                return
             if how in ("report-foreign", "ok-foreign"):
                 # correct msgID / user / request-id, but from another authoritative engine
                 if s.cfg.version != "v3":
@@ -273,6 +291,29 @@ def _discover(self, s, variant):
         return
     b0, t0 = _clock(1, variant)
     vb = [((1, 3, 6, 1, 6, 3, 15, 1, 1, 4, 0), values.v_unsigned("counter32", 1).tlv)]
+    if variant >= 100:
+        # deviations during discovery: 100.. = a stray Report from another engine with a non-matching msgID first;
+        # 200.. = the first probe is lost (time-out) and the probe is repeated
+        if variant < 200:
+            other = bytes([cfg.engine_id[0] ^ 0x7F]) + cfg.engine_id[1:] + b"x"
+            stray = drivers.reply_for(anon, req, vb, pdu_tag=rb.PDU_REPORT, engine_id=other, boots=5, time=5, flags=0, user="", msg_id=(req.msg_id + 1) & 0x7FFFFFFF)
+            w.inject(stray)
+            out = w.recv("refresh")
+            self.api_calls += 1
+            if not (out.kind == "exc" and isinstance(out.exc, BlockingIOError)):
+                self.bad("usm", "stray Report with a non-matching msgID was not skipped during discovery: %r" % (out.brief(),))
+        else:
+            out = w.send("refresh")
+            self.api_calls += 1
+            data = w.take_request()
+            if out.kind != "ok" or data is None:
+                return self.bad("wire", "repeated discovery probe failed: %r" % (out.brief(),))
+            self.datagrams += 1
+            req, probs = check_request(anon, Call("refresh", []), data, s.model, self.clauses)
+            for c, t in probs:
+                self.problems.append((c, t + " [repeated discovery probe]", self.step_no))
+            if req is None or req.request_id is None:
+                return
     rep = drivers.reply_for(anon, req, vb, pdu_tag=rb.PDU_REPORT, engine_id=cfg.engine_id, boots=b0, time=t0, flags=0, user="")
     w.inject(rep)
     out = w.recv("refresh")
